@@ -535,6 +535,15 @@ type ClientPromise struct {
 // hook may have been shut down earlier if the client ran out of
 // references.
 func (cp *ClientPromise) Fulfill(c *Client) {
+	if cp.fulfill(c) {
+		cp.shutdown()
+	}
+}
+
+// fulfill resolves the client promise to c like Fulfill, but does not
+// wait for outstanding calls on the promised hook.  If it returns true,
+// the caller must call cp.shutdown afterwards.
+func (cp *ClientPromise) fulfill(c *Client) (needShutdown bool) {
 	// Obtain next client hook.
 	var rh *clientHook
 	if c != nil {
@@ -561,7 +570,7 @@ func (cp *ClientPromise) Fulfill(c *Client) {
 	cp.h.refs = 0
 	if refs == 0 {
 		cp.h.mu.Unlock()
-		return
+		return false
 	}
 
 	// Client still had references, so we're responsible for shutting it down.
@@ -581,6 +590,12 @@ func (cp *ClientPromise) Fulfill(c *Client) {
 		}
 	}
 	cp.h.mu.Unlock()
+	return true
+}
+
+// shutdown waits for the calls that were outstanding on the promised
+// hook when fulfill was called and then shuts the hook down.
+func (cp *ClientPromise) shutdown() {
 	verifhook.Yield(106)
 	<-cp.h.done
 	cp.h.Shutdown()
